@@ -384,6 +384,9 @@ func (u *ModelUpdates) addMutateOperation(dbModel model.DatabaseModel, table, uu
 		}
 
 		newValue, diff := mutate(current, mutation.Mutator, nativeValue)
+		if outOfRange(current, mutation.Mutator, nativeValue, newValue) {
+			return &ovsdb.RangeError{}
+		}
 		if err := newInfo.SetField(mutation.Column, newValue); err != nil {
 			return err
 		}
